@@ -9,8 +9,8 @@ EXTENDS FailsafeT, SequencesExt
 CONSTANT TraceFile
 Trace == ndJsonDeserialize(TraceFile)
 
-VARIABLE l
-allvars == <<cfg, pol, now, xs, th, envi, l>>
+VARIABLES l, log      \* position in the trace; the visible events of the current scenario (history variable)
+allvars == <<cfg, pol, now, xs, th, envi, l, log>>
 
 Line == Trace[l]
 \* a label is explained by the current line: same event, same instant, every field of the label present and equal
@@ -28,7 +28,7 @@ NormDesc(d) ==
 NormCfg(c) == [c EXCEPT !.stack = [j \in 1..Len(c.stack) |-> NormDesc(c.stack[j])]]
 
 Dummy == [objs |-> <<>>, last |-> <<>>, cres |-> NilPR, att |-> 0, ret |-> 0, hdg |-> 0, exe |-> 0, calls |-> 0, t0 |-> 0,
-          rs |-> <<>>, final |-> NilPR, returned |-> FALSE, async |-> FALSE, cancel1 |-> FALSE]
+          rs |-> <<>>, final |-> NilPR, returned |-> FALSE, async |-> FALSE, cancel1 |-> FALSE, stored |-> FALSE, doneflag |-> FALSE, closed |-> FALSE]
 
 InitPolOf(c) ==
   LET ids == {c.stack[j].id : j \in {jj \in 1..Len(c.stack) : c.stack[jj].k \in {"cb", "bh"}}} IN
@@ -40,12 +40,101 @@ TraceReset ==
   /\ LET c == NormCfg(Line.cfg) IN
      /\ cfg' = c /\ pol' = InitPolOf(c) /\ now' = 0 /\ envi' = 1 /\ th' = <<>>
      /\ xs' = [x \in 1..c.nx |-> Dummy]
-  /\ l' = l + 1
+  /\ l' = l + 1 /\ log' = <<>>
 
-TraceSilentThread == \E t \in 1..Len(th) : \E r \in Steps(St, t) : r.lab.ev = "-" /\ Apply(r) /\ UNCHANGED <<cfg, now, envi, l>>
-TraceVisibleThread == \E t \in 1..Len(th) : \E r \in Steps(St, t) : Match(r.lab) /\ Apply(r) /\ l' = l + 1 /\ UNCHANGED <<cfg, now, envi>>
-TraceEnv == \E r \in EnvSteps(St) : Match(r.lab) /\ Apply(r) /\ envi' = envi + 1 /\ l' = l + 1 /\ UNCHANGED <<cfg, now>>
-TraceAdvance == Advance /\ UNCHANGED l
+TraceSilentThread == \E t \in 1..Len(th) : \E r \in Steps(St, t) : r.lab.ev = "-" /\ Apply(r) /\ UNCHANGED <<cfg, now, envi, l, log>>
+TraceVisibleThread == \E t \in 1..Len(th) : \E r \in Steps(St, t) : Match(r.lab) /\ Apply(r) /\ l' = l + 1 /\ log' = Append(log, Line) /\ UNCHANGED <<cfg, now, envi>>
+TraceEnv == \E r \in EnvSteps(St) : Match(r.lab) /\ Apply(r) /\ envi' = envi + 1 /\ l' = l + 1 /\ log' = Append(log, Line) /\ UNCHANGED <<cfg, now>>
+TraceAdvance == Advance /\ UNCHANGED <<l, log>>
+\* an observer (reader of an async result) looked at an instant at which the library had nothing to do
+TraceAdvanceTo ==
+  /\ l <= Len(Trace) /\ "t" \in DOMAIN Line /\ Line.t > now
+  /\ ~Runnable(St) /\ ~EnvDue(St) /\ (IF Pending = {} THEN TRUE ELSE Line.t < MinOf(Pending))
+  /\ now' = Line.t /\ UNCHANGED <<cfg, pol, xs, th, envi, l, log>>
+TraceObserve == \E lab \in ObsLabels(St) : Match(lab) /\ l' = l + 1 /\ log' = Append(log, Line) /\ UNCHANGED <<cfg, pol, now, xs, th, envi>>
+
+----------------------------------------------------------------------------
+(* ---- property predicates over the visible events of one finished scenario (from the property texts) ---- *)
+Idx == 1..Len(log)
+EvOf(i) == log[i].ev
+OfX(i, x) == "x" \in DOMAIN log[i] /\ log[i].x = x
+First(S) == CHOOSE i \in S : \A j \in S : i <= j
+HasStack(k) == \E j \in 1..Len(cfg.stack) : cfg.stack[j].k = k
+
+\* C08: an execution whose cancellation had fully taken effect while it was still running attempts or waiting must report
+\* the cause (never another error, never a fallback's output), starts at most one further attempt, and - when its
+\* functions cooperate - completes at the instant of the cancellation
+C08_OK ==
+  \A x \in 1..cfg.nx :
+    LET calls == {i \in Idx : EvOf(i) \in {"CtxCancel", "AsyncCancel"} /\ OfX(i, x)}
+        rets == {i \in Idx : EvOf(i) = "CancelRet" /\ OfX(i, x)}
+        returns == {i \in Idx : EvOf(i) = "Return" /\ OfX(i, x)} IN
+    (calls # {} /\ rets # {} /\ returns # {} /\ (HasStack("retry") \/ HasStack("hg")) /\ ~HasStack("to")
+       /\ First(returns) > First(rets)) =>           \* the caller got its result after the cancellation had taken effect
+      LET c == First(calls)   r == First(rets)   R == log[First(returns)]
+          cause == IF EvOf(c) = "CtxCancel" THEN "CtxCanceled" ELSE "ExecCanceled"
+          startsAfter == {i \in Idx : i > r /\ EvOf(i) = "FnStart" /\ OfX(i, x)}
+          \* the execution was demonstrably still running after the cancellation took effect
+          stillRunning == \E i \in Idx : i > r /\ i < First(returns) /\ OfX(i, x) /\ EvOf(i) \in {"FnStart", "FnEnd", "OnRetryScheduled", "OnRetry", "OnHedge"}
+          allCoop == \A k \in 1..Len(cfg.fns[x]) : cfg.fns[x][k].coop \/ cfg.fns[x][k].d = 0
+      IN /\ (stillRunning => R.e.op = cause)                                       \* Attribution
+         /\ (~HasStack("hg") => Cardinality(startsAfter) <= 1)                      \* AtMostOneMoreAttempt
+         /\ (stillRunning /\ allCoop /\ cfg.fnDefault.d = 0 => R.t = log[r].t)      \* Prompt
+         /\ ~(\E i \in Idx : i > r /\ EvOf(i) = "FallbackFn" /\ OfX(i, x) /\ stillRunning)   \* no fallback for a cancelled execution
+
+\* C06: never more executions inside the function (plus standalone permits) than the bulkhead allows, at any point of the log
+C06_OK ==
+  \A id \in DOMAIN cfg.bhmax :
+    \A n \in Idx :
+      LET starts == Cardinality({i \in 1..n : EvOf(i) = "FnStart"})
+          ends == Cardinality({i \in 1..n : EvOf(i) = "FnEnd"})
+          \* a standalone permit is held from the return of a successful TryAcquirePermit until ReleasePermit is called
+          taken == Cardinality({i \in 1..n : EvOf(i) = "BhTake" /\ log[i].ok}) - Cardinality({i \in 1..n : EvOf(i) = "BhReleaseCall"})
+          \* only meaningful when every invocation runs under the bulkhead (it is in the stack of every execution)
+      IN starts - ends + taken <= cfg.bhmax[id]
+
+\* C04: no invocation starts at an instant strictly after the breaker opened and before its delay elapsed (while it stays
+\* open); in a half-open epoch the executions admitted in that epoch never exceed the trial capacity
+CbIds == {cfg.stack[j].id : j \in {jj \in 1..Len(cfg.stack) : cfg.stack[jj].k = "cb"}}
+C04_OK ==
+  \A id \in CbIds :
+    LET d == cfg.stack[CHOOSE j \in 1..Len(cfg.stack) : cfg.stack[j].k = "cb" /\ cfg.stack[j].id = id]
+        sc == {i \in Idx : EvOf(i) = "StateChanged" /\ log[i].id = id}
+        cap == IF d.cfg.scap # 0 THEN d.cfg.scap ELSE IF d.cfg.fexec # 0 THEN d.cfg.fexec ELSE d.cfg.fcap
+        NextSc(i) == LET S == {j \in sc : j > i} IN IF S = {} THEN Len(log) + 1 ELSE First(S)
+    IN \A i \in sc :
+         /\ (log[i].new = "open" =>
+               ~\E j \in (i + 1)..(NextSc(i) - 1) : EvOf(j) = "FnStart" /\ log[j].t > log[i].t /\ log[j].t < log[i].t + d.cfg.delay)
+         /\ (log[i].new = "halfopen" =>
+               \A n \in (i + 1)..(NextSc(i) - 1) :
+                  LET starts == {j \in (i + 1)..n : EvOf(j) = "FnStart" /\ log[j].t > log[i].t}
+                      ends == {j \in (i + 1)..n : EvOf(j) = "FnEnd" /\ \E s \in starts : log[s].x = log[j].x /\ log[s].k = log[j].k}
+                  IN Cardinality(starts) - Cardinality(ends) <= cap)
+
+\* C15: every reader gets the same values, which are the ones reported to the completion listeners; IsDone is never true
+\* before the completion listeners ran; a Cancel that took effect before completion under retry/hedge reports ErrExecutionCanceled
+C15_OK ==
+  \A x \in 1..cfg.nx :
+    LET gets == {i \in Idx : EvOf(i) \in {"GetRet", "Return"} /\ OfX(i, x)}
+        dones == {i \in Idx : EvOf(i) = "ExecOnDone" /\ OfX(i, x)}
+        isdone == {i \in Idx : EvOf(i) = "IsDone" /\ OfX(i, x) /\ log[i].v}
+        closed == {i \in Idx : EvOf(i) = "DoneClosed" /\ OfX(i, x)} IN
+    /\ \A i \in gets, j \in gets : log[i].r = log[j].r /\ log[i].e = log[j].e
+    /\ (dones # {} => \A i \in gets : log[i].r = log[First(dones)].lr /\ log[i].e = log[First(dones)].le)
+    /\ \A i \in isdone \cup closed \cup gets : dones # {} /\ i > First(dones)
+    /\ \A i \in closed : \A j \in {jj \in Idx : jj > i /\ EvOf(jj) = "IsDone" /\ OfX(jj, x)} : log[j].v
+
+\* C09: a hedged execution (hedge outermost) starts at most maxHedges+1 attempts and never starts hedge k before k delays
+C09_OK ==
+  (Len(cfg.stack) >= 1 /\ cfg.stack[1].k = "hg") =>
+    \A x \in 1..cfg.nx :
+      LET p == cfg.stack[1]
+          st == {i \in Idx : EvOf(i) = "Start" /\ OfX(i, x)}
+          hs == {i \in Idx : EvOf(i) = "OnHedge" /\ OfX(i, x)} IN
+      st # {} =>
+        /\ Cardinality(hs) <= p.maxh
+        /\ \A i \in hs : log[i].t >= log[First(st)].t + p.delay * Cardinality({j \in hs : j <= i})
+        /\ (~HasStack("retry") => Cardinality({i \in Idx : EvOf(i) = "FnStart" /\ OfX(i, x)}) <= p.maxh + 1)
 
 \* the scenario is over: nothing can step, nothing is pending; the harness' observations must agree with the model
 AllEnded == \A t \in 1..Len(th) : th[t].mode = "end"
@@ -54,17 +143,25 @@ TraceQuiesce ==
   /\ ~Runnable(St) /\ ~EnvDue(St)
   /\ Line.live = 0 <=> AllEnded                              \* C19: goroutines of the library still alive
   /\ \A id \in DOMAIN cfg.bhmax : Line.used[id] = pol[id]    \* C06: permits in use as probed through TryAcquirePermit
-  /\ l' = l + 1 /\ UNCHANGED <<cfg, pol, now, xs, th, envi>>
+  \* C04: breaker state and, when half-open, the trial permits left (probed through TryAcquirePermit) agree with the model
+  /\ \A id \in DOMAIN Line.cb : Line.cb[id].state = pol[id].st /\ (pol[id].st = "halfopen" => Line.cb[id].permits = pol[id].permitted)
+  /\ (IF C04_OK THEN TRUE ELSE PrintT(<<"PROPVIOL", "C04", l>>))
+  /\ (IF C15_OK THEN TRUE ELSE PrintT(<<"PROPVIOL", "C15", l>>))
+  \* property predicates on the real trace: a failure is reported (with the line number) and validation goes on
+  /\ (IF C08_OK THEN TRUE ELSE PrintT(<<"PROPVIOL", "C08", l>>))
+  /\ (IF C06_OK THEN TRUE ELSE PrintT(<<"PROPVIOL", "C06", l>>))
+  /\ (IF C09_OK THEN TRUE ELSE PrintT(<<"PROPVIOL", "C09", l>>))
+  /\ l' = l + 1 /\ UNCHANGED <<cfg, pol, now, xs, th, envi, log>>
 
 TraceInit ==
   /\ l = 1 /\ now = 0 /\ envi = 1 /\ th = <<>> /\ xs = <<>> /\ pol = <<>>
   /\ cfg = [stack |-> <<>>, fns |-> <<>>, env |-> <<>>, nx |-> 0, tld |-> 0, asyncFix |-> FALSE, bhmax |-> <<>>, fnDefault |-> [d |-> 0, r |-> "R2", e |-> Nil, coop |-> FALSE]]
-  /\ TLCSet(1, 1)
+  /\ TLCSet(1, 1) /\ log = <<>>
 
 \* every line explained: say so (the orchestrator looks for this line) and stop this branch
-TraceDone == l = Len(Trace) + 1 /\ PrintT("TRACE-ACCEPTED") /\ l' = l + 1 /\ UNCHANGED <<cfg, pol, now, xs, th, envi>>
+TraceDone == l = Len(Trace) + 1 /\ PrintT("TRACE-ACCEPTED") /\ l' = l + 1 /\ UNCHANGED <<cfg, pol, now, xs, th, envi, log>>
 
-TraceNext == TraceReset \/ TraceSilentThread \/ TraceVisibleThread \/ TraceEnv \/ TraceAdvance \/ TraceQuiesce \/ TraceDone
+TraceNext == TraceReset \/ TraceSilentThread \/ TraceVisibleThread \/ TraceEnv \/ TraceAdvance \/ TraceAdvanceTo \/ TraceObserve \/ TraceQuiesce \/ TraceDone
 TraceSpec == TraceInit /\ [][TraceNext]_allvars
 
 Progress == TLCSet(1, IF TLCGet(1) < l THEN l ELSE TLCGet(1))
